@@ -1,6 +1,7 @@
 """C19 -- embedded Python keeps its meaning through analysis and re-emission.
 
 Specifications: spec/PyExpr.tla (space of expressions, reference rendering, precedence table),
+spec/PySig.tla (shapes of parameter lists around the defaults),
 spec/PyScope.tla (free/bound names of statement blocks), spec/Remargin.tla (lexical state of
 <% %> blocks line by line: which lines get the margin removed, which are string content).
 
@@ -15,7 +16,7 @@ import re
 
 from . import core
 from .core import MachineryError
-from . import c19_scope, c19_remargin
+from . import c19_scope, c19_remargin, c19_sig
 
 
 def need_actions(res, names, module):
@@ -287,6 +288,7 @@ def check(run):
     warnings.filterwarnings("ignore", category=SyntaxWarning)     # `1 is 1`, `'s'(b)` ... are part of the space
     run.extra["mako_file"] = mako.__file__
     part_pyexpr(run)
+    c19_sig.part_pysig(run)
     c19_scope.part_pyscope(run)
     c19_remargin.part_remargin(run)
     run.assumptions += [
